@@ -226,6 +226,83 @@ def fam_g_compute_numeric_partials(cls):
                       functions=[f"{cls.name}._compute_numeric_partials"])
 
 
+def fam_g_helper_multiply():
+    """math_functions.multiply(*args) for an argument list of any length: the contract that the
+    other symbolic-arity families use (gexec.HELPER_CONTRACTS) is discharged here against the
+    real body (loop invariant MultiplyLoop)."""
+    nm = "math_functions.multiply[any arity]"
+
+    def run(prog, tier):
+        from ..gmode import SList
+        fd = prog.func("math_functions.multiply")
+
+        def setup(I):
+            I.ghost["inline_helper"] = fd.qualname
+            k = z3.Int("k")
+            I.path.assume(k >= 0)
+            A = z3.Function("arg", z3.IntSort(), z3.RealSort())
+            isint = z3.Function("arg_is_int", z3.IntSort(), z3.BoolSort())
+            sl = SList(k, lambda t: SNum(A(t), isint(t)), "args")
+            I.ghost.update({"A": A, "k": k})
+            return lambda: I.call_funcdef(fd, [StarArgs(sl)], {})
+
+        def post(I, res, emit):
+            g = I.ghost
+            if res.outcome[0] != "ret":
+                emit("no-exception", ["C17"], z3.BoolVal(False), info=f"{H.exc_kind(res.outcome[1])} at {res.outcome[2]}")
+                return
+            r = res.outcome[1]
+            emit("returns-number", ["C17"], z3.BoolVal(is_num(r)))
+            if is_num(r):
+                emit("value=product-of-the-arguments", ["C01", "C03", "C04"], real_term(r) == gmode.bigprod(I, lambda t: g["A"](t), g["k"]))
+        return H.run_family(prog, nm, setup, post)
+    return FamilySpec(nm, ["C01", "C03", "C04", "C06", "C17"], run, functions=["math_functions.multiply"])
+
+
+def fam_g_helper_list_without():
+    """utilities.list_without_entry_at(entries, i) for a list of any length and any int i:
+    length and every element of the result (the contract in gexec.HELPER_CONTRACTS is the case
+    0 <= i < len(entries))."""
+    nm = "utilities.list_without_entry_at[any length]"
+
+    def run(prog, tier):
+        from ..gmode import SList
+        fd = prog.func("utilities.list_without_entry_at")
+
+        def setup(I):
+            I.ghost["inline_helper"] = fd.qualname
+            k = z3.Int("k")
+            I.path.assume(k >= 0)
+            A = z3.Function("entry", z3.IntSort(), z3.RealSort())
+            sl = SList(k, lambda t: SNum(A(t), False), "entries")
+            i = z3.Int("i")
+            I.ghost.update({"A": A, "k": k, "i": i})
+            return lambda: I.call_funcdef(fd, [sl, SNum(i, True)], {})
+
+        def post(I, res, emit):
+            g = I.ghost
+            A, k, i = g["A"], g["k"], g["i"]
+            if res.outcome[0] != "ret":
+                emit("no-exception", ["C17"], z3.BoolVal(False), info=f"{H.exc_kind(res.outcome[1])} at {res.outcome[2]}")
+                return
+            r = res.outcome[1]
+            ok = isinstance(r, SList)
+            emit("returns-a-list", ["C17"], z3.BoolVal(ok))
+            if not ok:
+                return
+            oor = z3.Or(i >= k, i <= -(k + 1))
+            j = z3.If(i >= 0, i, k + i)
+            emit("length", ["C03", "C04", "C05"], r.length == z3.If(oor, k, k - 1))
+            u = z3.Int("u!elem")
+            qm(I).add_index(u, r.length)
+            got = r.elem(u)
+            want = z3.If(oor, A(u), z3.If(u < j, A(u), A(u + 1)))
+            emit("elements", ["C03", "C04", "C05"], z3.Implies(z3.And(u >= 0, u < r.length),
+                                                              real_term(got) == want if is_num(got) else z3.BoolVal(False)))
+        return H.run_family(prog, nm, setup, post)
+    return FamilySpec(nm, ["C03", "C04", "C05", "C06", "C17"], run, functions=["utilities.list_without_entry_at"])
+
+
 _specs0 = specs
 
 
@@ -236,7 +313,9 @@ def specs(prog, tier):                                    # noqa: F811
         out += [fam_g_at(cls), fam_g_reset(cls), fam_g_init(cls)]
     add = prog.classes["Add"]
     out += [fam_g_numeric_partial(add), fam_g_compute_numeric_partials(add)]
-    out += [fam_g_compute_numeric_partials(prog.classes["Multiply"])]
+    mul = prog.classes["Multiply"]
+    out += [fam_g_compute_numeric_partials(mul), fam_g_numeric_partial(mul)]
+    out += [fam_g_helper_multiply(), fam_g_helper_list_without()]
     return out
 
 
